@@ -367,6 +367,12 @@ func trackApp(l *loopInst, ops string) {
 		case "p":
 			// only what really is in the application's DBI now counts as its committed write
 			if cur, ok := app[k]; ok && bytes.Equal(cur, mustUnhx(f[3])) {
+				if sv, ok := logical[k]; !l.native && ok && !sv.del && bytes.Equal(sv.val, cur) {
+					// rewriting the value the shadow already holds is not a change Lightning Stream can see
+					delete(t.writes, k)
+					changed = true
+					continue
+				}
 				t.writes[k] = &trackedWrite{val: mustUnhx(f[3]), tag: t.iter, sym: lastSym, race: race, point: l.at}
 				changed = true
 			}
